@@ -3,7 +3,9 @@ SPEC = {
     "level_text": "Theorems (Coq, all epochs/lifetimes/clock readings/sequence lengths): the advertised lifetime equals max(0, epoch+L-now), is non-negative, zero from the deadline on, non-increasing along any non-decreasing clock sequence, preferred<=valid at every instant, constants when not deprecated. The model is tied to plugin.Prefix/Route.Apply by differential runs of the real code along clock sequences around both deadlines.",
     "level_note": "Trusted: Coq kernel + vm_compute; the Go driver and the rendering of cases; time.Time arithmetic is modelled on Z without saturation (instants within +-2^62 ns).",
     "drivers": [{"pkg": "internal/plugin", "test": "TestVerifC16"},
-                {"pkg": "internal/plugin", "test": "TestVerifC16Epoch"}],
+                {"pkg": "internal/plugin", "test": "TestVerifC16Epoch"},
+                # on the wire: the real Advertiser.Run under a virtual clock; every RA written carries the remainder at the write
+                {"pkg": "internal/corerad", "test": "TestVerifC16Run", "newgo": True, "timeout": 600, "arch386": []}],
     "rule": "random (epoch, valid, preferred<=valid | route lifetime, deprecated flag) with boundary-biased "
             "durations (1ns, 1s+-1ns, 1.5s, 4h, 24h, 30d, 2^32-2 s, infinity for non-deprecated); each plugin value is "
             "evaluated along a sequence of clock readings containing deadline-1s/-1ns/0/+1ns/+1s for both deadlines, "
